@@ -9,6 +9,8 @@ prints the same canonical line.  Case lines:
   new <i> <Name> <id>              declares connection i (ASCII name, numeric UUID)   impl `-`
   canreg <i> | reg <i>             canRegisterConnection / registerConnection
   disc <i>                         i.Disconnect(reason) — closes i's connection, teardown runs inside
+  racekick <i> <j>                 (kick mode, different UUIDs) i.Disconnect() and registerConnection(j) started
+                                   concurrently while the harness holds muP, then released together
   byid <id> | byname <Name> | count | list      Proxy.Player / PlayerByName / PlayerCount / Players
   stress <online> <kick> <workers> <flows>      concurrent login flows (search aid): impl `ok` or the broken invariant
 
@@ -72,12 +74,12 @@ def resultOf (evs : List Ev) : String :=
   | [] => "-"
   | l => l.getLast!
 
-/-- run one API call to completion on the repaired machine -/
-def runCall (d : DState) (c : Call) : DState × String :=
+/-- run API calls, one after the other, each to completion, on the repaired machine -/
+def runCalls (d : DState) (cs : List Call) : DState × String :=
   match d.sys with
   | none => (d, "hang")
   | some s =>
-    match runThread Mode.repaired d.cfg 64 { s with threads := [[.call c]], log := [] } 0 with
+    match runThread Mode.repaired d.cfg 96 { s with threads := [cs.map Task.call], log := [] } 0 with
     | none => ({ d with sys := none }, "hang")
     | some s' => ({ d with sys := some { s' with log := [] } }, "r=" ++ resultOf s'.log ++ " " ++ dump d s' s'.log)
 
@@ -110,6 +112,8 @@ def parseImpl (s : String) : Option ImplLine :=
     pure ⟨r, n, ids, names, ev⟩
   | _ => none
 
+def runCall (d : DState) (c : Call) : DState × String := runCalls d [c]
+
 def hasDup : List Nat → Bool
   | [] => false
   | a :: r => r.contains a || hasDup r
@@ -126,6 +130,9 @@ def judge (d : DState) (op : String) (arg : String) (l : ImplLine) : String :=
   let idOf := fun p => (d.decl p).map (·.id)
   let lnameOf := fun p => (d.decl p).map (·.lname)
   let live := d.implRegd.filter (fun p => !d.implTorn.contains p)
+  -- kick mode: p may have lost its name entry only to a player of the same lower-case name whose
+  -- registration succeeded AFTER p's (implRegd is newest first)
+  let replaced := fun p => ((d.implRegd.takeWhile (· != p)).any (fun q => lnameOf q == lnameOf p))
   firstViol [
     (l.n == l.ids.length, "count-mismatch"),
     (!hasDup idPlayers, "duplicate-player"),
@@ -133,6 +140,7 @@ def judge (d : DState) (op : String) (arg : String) (l : ImplLine) : String :=
     (l.names.all (fun e => lnameOf e.2 == some e.1), "wrong-key"),
     (live.all (fun p => idPlayers.contains p), "unregister-removes-other"),
     (d.kickMode || live.all (fun p => namePlayers.contains p), "unregister-removes-other"),
+    (!d.kickMode || live.all (fun p => namePlayers.contains p || replaced p), "unregister-removes-other"),
     (d.kickMode || !hasDup (idPlayers.map (fun p => d.nameKey ((lnameOf p).getD "?"))), "duplicate-name"),
     (d.kickMode || (natSort idPlayers == natSort namePlayers), "indices-differ"),
     (idPlayers.all (fun p => d.implRegd.contains p), "never-registered-listed"),
@@ -177,6 +185,19 @@ def dstep (d : DState) (c : Case) : DState × String × String :=
       let ln := name.toLower
       let keys := if d.nameKeys.contains ln then d.nameKeys else d.nameKeys ++ [ln]
       ({ d with decls := ⟨i, ln, id⟩ :: d.decls, nameKeys := keys }, "-", "-")
+    | _, _ => (d, "bad-op", "-")
+  | "racekick", [a, b] =>
+    -- i's connection closes while j registers, both parked at muP and released together: on the repaired
+    -- machine every interleaving of the two ends in the same state as running them one after the other
+    match a.toNat?, b.toNat? with
+    | some i, some j =>
+      let (d1, out) := runCalls d [.disconnect i, .reg j]
+      if c.impl == "hang" then (d1, out, "viol:lock-leak") else
+      match parseImpl c.impl with
+      | none => (d1, out, "viol:unparsable")
+      | some l =>
+        let d2 := absorb d1 "reg" b l
+        (d2, out, judge d2 "reg" b l)
     | _, _ => (d, "bad-op", "-")
   | "stress", _ => (d, "ok", if c.impl == "ok" then "ok" else "viol:" ++ c.impl)
   | op, args =>
